@@ -993,6 +993,21 @@ def _normalise(n, F, depth, tail=False, under_try=False):
         else:
             out[key] = v
     k = out.get("k")
+    # (0a) `while let Some(p) = it.next() { body }` is `for p in it.by_ref() { body }`
+    if k == "Loop":
+        b_ = unblock(out["body"])
+        while b_.get("k") == "Block" and not b_["stmts"] and b_.get("expr") is not None:
+            b_ = unblock(b_["expr"])
+        if b_.get("k") == "If" and b_.get("else") is not None and peel(b_["cond"]).get("k") == "LetCond":
+            lc = peel(b_["cond"])
+            nx = peel(lc["arg"])
+            el = unblock(b_["else"])
+            while el.get("k") == "Block" and len(el["stmts"]) + (1 if el.get("expr") is not None else 0) == 1:
+                el = unblock(el["stmts"][0]["e"] if el["stmts"] else el["expr"])
+            if el.get("k") == "Break" and el.get("value") is None and call_is(nx, "Iterator::next") and len(nx["args"]) == 1 and variant_of(lc["pat"]) == ("Option", "Some") and strip_ref(lc["pat"]).get("sub") \
+                    and peel(nx["args"][0]).get("k") in ("Var", "Upvar"):
+                itx = {"k": "Call", "ty": nx["args"][0].get("ty"), "sp": nx.get("sp"), "fn": "std::iter::Iterator::by_ref", "local": False, "gen": [], "hir_call": False, "args": [nx["args"][0]]}
+                return {"k": "For", "ty": "()", "sp": out.get("sp"), "pat": strip_ref(lc["pat"])["sub"][0]["p"], "iter": itx, "body": b_["then"], "from_while_let": True}
     # (0) a local constant with a closed initialiser is its value (`const WIDTH: usize = 64`, `Side::TRUE`)
     if k == "Const" and out.get("path") in getattr(F, "consts", {}):
         v = peel(F.consts[out["path"]])
@@ -1289,7 +1304,7 @@ def _closed_value(n):
         return True
     if k == "Unary" and n.get("op") == "Neg":
         return _closed_value(n["arg"])
-    if k == "Tuple":
+    if k in ("Tuple", "Array"):
         return all(_closed_value(f) for f in n["fields"])
     if k == "Adt":
         return all(_closed_value(f["e"]) for f in n["fields"]) and not n.get("base")
